@@ -198,6 +198,7 @@ func c20Forms() []formCase {
 		fs = append(fs, formCase{Name: "value/" + k, Slot: "value", Imports: imp, Body: "func Init() interface{} {\n\twire.Build(wire.Value(" + vals[k] + "), NewUser)\n\treturn nil\n}\n\ntype User struct{}\n\nfunc NewUser() interface{} { return User{} }\n"})
 		fs = append(fs, formCase{Name: "ifacevalue/" + k, Slot: "ifacevalue", Imports: imp, Body: inj("I", "nil", "wire.InterfaceValue(new(I), "+vals[k]+")")})
 		fs = append(fs, formCase{Name: "ifacevalue-arg0/" + k, Slot: "ifacevalue", Imports: imp, Body: inj("I", "nil", "wire.InterfaceValue("+vals[k]+", VarA)")})
+		fs = append(fs, formCase{Name: "ifacevalue-any/" + k, Slot: "ifacevalue", Imports: imp, Body: inj("interface{}", "nil", "wire.InterfaceValue(new(interface{}), "+vals[k]+")")})
 	}
 	// ---- how wire is imported
 	for _, k := range []string{"Build(NewA)", "Build(Struct(new(B), \"*\"), NewA, NewPA)", "Build(NewA, NewPA, Bind(new(I), new(A)))", "Build(Value(VarA))",
